@@ -24,7 +24,7 @@ for pid in ALL:
 na = [dict(property_id=p, reason=texts.NOT_CLAIMED.get(p, 'check not built yet in this phase; see DESIGN.md section 6 for the planned monitor'))
       for p in ALL if p not in [c['property_id'] for c in checks]]
 import subprocess
-hooks = subprocess.run(['git', '-C', '/repo', 'log', '--format=%H', '--grep=ASL_VERIF verification hooks'], capture_output=True, text=True).stdout.split()
+hooks = subprocess.run(['git', '-C', '/repo', 'log', '--format=%H', '--grep=^ASL_VERIF hooks\|ASL_VERIF verification hooks'], capture_output=True, text=True).stdout.split()
 m = dict(version=1,
          setup_cmd='./check --setup',
          hooks=dict(guard='ASL_VERIF', enable='vf/build.py compiles /repo/src/*.cpp (minus TlsSocket.cpp) with -DASL_VERIF -I/repo/include into per-variant archives (asan, tsan, plain, fuzz) under /verif/.cache/build, keyed by a hash of src/ and include/',
